@@ -440,3 +440,20 @@ M("C03", "C03-LAYOUT", PYX, "        for offset in prior.v0_offsets:\n          
   "        for i, name in enumerate(prior._v_trend_names):\n            self.internal_units[name] = self.data.rv.unit / u.day ** i\n\n        for offset in prior.v0_offsets:\n            self.internal_units[offset.name] = self.data.rv.unit\n", "offsets named after the trend terms")
 M("C03", "C03-INDEP", MP, "        sg = rng.bit_generator._seed_seq.spawn(len(tasks))\n        for i in range(len(tasks)):\n            tasks[i] = tuple(tasks[i]) + (Generator(PCG64(sg[i])),)\n", "        for i in range(len(tasks)):\n            tasks[i] = tuple(tasks[i]) + (rng,)\n", "every task gets the parent generator (seeded C03-B)")
 M("C03", "C03-JIT", PYX, "                    self.a[i] += self.M_T[i, n] * self.s_ivar[n] * self.rv[n]\n", "                    self.a[i] += self.M_T[i, n] * self.ivar[n] * self.rv[n]\n", "rhs uses the raw weights (reverse of fix)")
+
+# ---------------------------------------------------------------- C04
+M("C04", "C04-TREF", LH, "        t_ref=joker_helper.data.t_ref,\n        poly_trend=joker_helper.prior.poly_trend,\n        n_offsets=joker_helper.prior.n_offsets,\n    )\n\n    return samples\n\n\ndef rejection_sample_inmem", "        poly_trend=joker_helper.prior.poly_trend,\n        n_offsets=joker_helper.prior.n_offsets,\n    )\n\n    return samples\n\n\ndef rejection_sample_inmem", "in-memory posterior samples carry no t_ref")
+M("C04", "C04-TREF", SM, "        orbit._vtrend = PolynomialRVTrend(trend_coeffs, t0=self.t_ref)\n", "        orbit._vtrend = PolynomialRVTrend(trend_coeffs, t0=None)\n", "trend epoch dropped in get_orbit")
+M("C04", "C04-TREF", SM, "        orbit.elements.t0 = self.t_ref\n", "", "elements.t0 left at the cached template's value")
+M("C04", "C04-TREF", LH, "    dt = data._t_bmjd - data._t_ref_bmjd\n", "    dt = data._t_bmjd - data._t_bmjd[0]\n", "sampler's trend measured from the first epoch (seeded C04-A)")
+M("C04", "C04-TREF", PYX, "        self.t0 = data._t_ref_bmjd\n", "        self.t0 = data._t_bmjd[0]\n", "kernel phases measured from the first epoch")
+M("C04", "C04-MAP", SM, "        orbit.elements._omega = omega\n        orbit.elements._M0 = M0\n", "        orbit.elements._omega = M0\n        orbit.elements._M0 = omega\n", "omega and M0 swapped in get_orbit")
+M("C04", "C04-MAP", SM, "        a = kwargs.pop(\"a\", P * K / (2 * np.pi) * np.sqrt(1 - e**2))\n", "        a = kwargs.pop(\"a\", P * K / (2 * np.pi) * (1 - e**2))\n", "semi-major axis without the square root")
+M("C04", "C04-MAP", SM, "        trend_coeffs = [self[x] for x in names[1:]]  # skip K\n", "        trend_coeffs = [self[x] for x in names[:-1]]\n", "trend coefficients include K, drop the last term")
+T("C04", SM, "        a = kwargs.pop(\"a\", P * K / (2 * np.pi) * np.sqrt(1 - e**2))\n", "        a = kwargs.pop(\"a\", K * P * np.sqrt(1 - e * e) / np.pi / 2)\n", "semi-major axis rewritten equivalently")
+M("C04", "C04-VAR", SM, "                model_rv.to_value(data_unit), data_rv, data_var + s\n", "                model_rv.to_value(data_unit), data_rv, data_var\n", "jitter not added to the variances")
+M("C04", "C04-VAR", SM, "            s_vars = self[\"s\"].to_value(data_unit) ** 2\n", "            s_vars = self[\"s\"].to_value(data_unit)\n", "jitter not squared")
+M("C04", "C04-VAR", LH, "    return -0.5 * (np.log(2 * np.pi * var) + (x - mu) ** 2 / var)\n", "    return -0.5 * (np.log(2 * np.pi * var) + (x - mu) ** 2 / np.sqrt(var))\n", "ln_normal divides by sigma")
+M("C04", "C04-JIT", PYX, "            self.Binv[n, n] = self.s_ivar[n]\n", "            self.Binv[n, n] = self.ivar[n]\n", "kernel ignores the jitter in Binv (reverse of fix)")
+M("C04", "C04-KEPLER", PYX, "                            P, 1., e, om, M0, self.t0,\n                            anomaly_tol, anomaly_maxiter)", "                            P, 2., e, om, M0, self.t0,\n                            anomaly_tol, anomaly_maxiter)", "unit-amplitude column scaled by two in the test hook")
+M("C04", "C04-IO", SM, "                        tbl.meta[\"__t_ref_bmjd\"], format=\"mjd\", scale=\"tcb\"\n", "                        tbl.meta[\"__t_ref_bmjd\"], format=\"mjd\"\n", "FITS epoch read back without the TCB scale (seeded C04-B)")
